@@ -198,6 +198,15 @@ Definition Universal_fitW (q:Vec2 T) (V:SV) : Vec2 T :=
 (** BendStretch velocity fit (translation q1 <> 0) *)
 Definition BendStretch_fitV (q:Vec2 T) (V:SV) : Vec2 T :=
   let vM := m33_Tmulv K (RotZ (fst q)) (snd V) in (v3_1 vM / snd q, v3_0 vM).
+(** BendStretch translation fit (d >= 4 eps branch): q0 = atan2(p_y,p_x), q1 = |p_xy|; it runs after the rotation fit *)
+Definition BendStretch_fitT (p:Vec3 T) : Vec2 T :=
+  (natan2 K (v3_1 p) (v3_0 p), nsqrt K (v3_0 p * v3_0 p + v3_1 p * v3_1 p)).
+(** Ellipsoid velocity fit: the angular fit u = w, then the linear fit (written for a sphere) overwrites the x,y
+    components of w expressed in M from the linear velocity *)
+Definition Ell_fitV (r:Vec3 T) (R:Mat33 T) (V:SV) : Vec3 T :=
+  let p := Ell_p r R in
+  let vM := m33_Tmulv K R (snd V) in let rM := m33_Tmulv K R p in let wM := m33_Tmulv K R (fst V) in
+  m33_mulv K R (- (v3_1 vM) / v3_2 rM, v3_0 vM / v3_2 rM, v3_2 wM).
 (** LineOrientation / FreeLine: u = (x,y) of R^T w *)
 Definition Line_fitW (R:Mat33 T) (V:SV) : Vec2 T := dn2 (m33_Tmulv K R (fst V)).
 (** SphericalCoords velocity fit (after the committed fix): u0 = s0 w_z, u1 = s1 (R^T (w_x,w_y,0))_y, u2 = s2 v . axis *)
@@ -301,4 +310,42 @@ Definition rep_X (m:mspec) (rev:bool) (q:list T) : Transform T := if rev then re
 Definition rep_H (m:mspec) (rev:bool) (q:list T) : list (SpatialVec T) :=
   if rev then rev_H K (mob_X m q) (mob_H m q) else mob_H m q.
 Definition rep_V (m:mspec) (rev:bool) (q u:list T) : SpatialVec T := Hu K (rep_H m rev q) u.
+(** closed-form fitters by type, applied to the as-defined (un-reversed) transform / velocity; [None] = not modelled *)
+Definition rotfit (m:mspec) (R:Mat33 T) : list T := if usesQuat m then of4 (quat_of_R K R) else of3 (xyz_angles K R).
+Definition mob_fitQ (m:mspec) (X:Transform T) : option (list T) :=
+  match m_type m with
+  | MWeld => Some nil
+  | MPin => Some (Pin_fitR K (fst X) :: nil)
+  | MSlider => Some (Slider_fitT (snd X) :: nil)
+  | MTranslation => Some (of3 (snd X))
+  | MScrew => Some (Screw_fitT K (nth0 (m_par m) 0) (snd X) :: nil)
+  | MPlanar => Some (of3 (Planar_fitX K X))
+  | MCylinder => Some (of2 (Cylinder_fitX K X))
+  | MGimbal => Some (of3 (xyz_angles K (fst X)))
+  | MBushing => Some (of3 (xyz_angles K (fst X)) ++ of3 (snd X))
+  | MBendStretch => Some (of2 (BendStretch_fitT K (snd X)))
+  | MBall | MLineOrientation => Some (rotfit m (fst X))
+  | MFree | MFreeLine => Some (rotfit m (fst X) ++ of3 (snd X))
+  | _ => None
+  end.
+Definition mob_fitU (m:mspec) (q:list T) (V:SpatialVec T) : option (list T) :=
+  match m_type m with
+  | MWeld => Some nil
+  | MPin => Some (Pin_fitW V :: nil)
+  | MSlider => Some (Slider_fitV V :: nil)
+  | MTranslation => Some (of3 (snd V))
+  | MScrew => Some (Screw_fitV K (nth0 (m_par m) 0) V :: nil)
+  | MPlanar => Some (of3 (Planar_fitV V))
+  | MCylinder => Some (of2 (Cylinder_fitV V))
+  | MBall => Some (of3 (fst V))
+  | MFree => Some (of3 (fst V) ++ of3 (snd V))
+  | MGimbal => Some (of3 (Gimbal_fitW K (l3 q 0) V))
+  | MBushing => Some (of3 (Gimbal_fitW K (l3 q 0) V) ++ of3 (snd V))
+  | MUniversal => Some (of2 (Universal_fitW K (nth0 q 0, nth0 q 1) V))
+  | MBendStretch => Some (of2 (BendStretch_fitV K (nth0 q 0, nth0 q 1) V))
+  | MLineOrientation => Some (of2 (Line_fitW K (ballR m q) V))
+  | MFreeLine => Some (of2 (Line_fitW K (ballR m q) V) ++ of3 (snd V))
+  | MSphericalCoords => Some (of3 (Sph_fitV K (sc_of (m_par m)) (l3 q 0) V))
+  | MEllipsoid => Some (of3 (Ell_fitV K (l3 (m_par m) 0) (ballR m q) V))
+  end.
 End Disp.
